@@ -68,6 +68,7 @@ KNOWN = {
     'la': 'C18-LA-term-missing',
     'nh': 'C18-nxxtop-harmonics-dropped-bcn',
     'kkk': 'C18-kkk-complement-block',
+    'nr': 'C18-static-null-rows-loaded',
 }
 
 MODELS = ['clpt_donnell_bc1', 'clpt_donnell_bc2', 'clpt_donnell_bc3', 'clpt_donnell_bc4',
@@ -152,9 +153,9 @@ def gen_case(rng, thorough=False):
     case['forces'] = gen_forces(rng, L, rng.choice([0, 0, 1, 2, 3]))
     case['forces_inc'] = gen_forces(rng, L, rng.choice([0, 0, 1, 2, 3]))
     clpt = 'clpt' in model
-    pz = 0.3 if clpt else 0.92
-    case['P'] = 0. if rng.random() < pz + 0.2 else rng.uniform(-0.5, 0.5)
-    case['P_inc'] = 0. if rng.random() < pz + 0.3 else rng.uniform(-0.5, 0.5)
+    pz = 0.5 if clpt else 0.94          # FSDT: pressure raises NotImplementedError (error path, kept rare)
+    case['P'] = 0. if rng.random() < pz else rng.uniform(-0.5, 0.5)
+    case['P_inc'] = 0. if rng.random() < pz + 0.1 else rng.uniform(-0.5, 0.5)
     # axial
     r = rng.random()
     case.update(pdC=False, uTM=0., Fc=None, Nxxtop=None, MLA=None, xiLA=None)
@@ -682,6 +683,9 @@ def predicates(case, o):
         with contextlib.redirect_stdout(QUIET):
             f0 = np.array(cc.calc_fext(inc=0., silent=True))
             f1 = np.array(cc.calc_fext(inc=1., silent=True))
+            fk = np.array(cc.calc_fext(inc=inc, kuk=cc.k0uk, silent=True))     # the documented-obsolete argument
+        if not np.array_equal(fk, o.fext):
+            out.append((None, 'calc_fext(kuk=self.k0uk) differs from calc_fext()'))
         sc = max(np.abs(f0).max(), np.abs(f1).max(), np.abs(o.fext).max(), 1e-300)
         if np.abs(o.fext - (f0 + inc * (f1 - f0))).max() > 1e-9 * sc:
             out.append((None, 'calc_fext is not affine in the load factor'))
@@ -691,27 +695,39 @@ def predicates(case, o):
     elif o.static[0] == 'ok':
         cu = o.static[1]
         rec = o.static[3]
-        r1 = np.abs(rec['a'] @ cu - rec['b']).max()
+        res = rec['a'] @ cu - rec['b']
         sc1 = max((np.abs(rec['a']) @ np.abs(cu)).max(), np.abs(rec['b']).max(), 1e-300)
-        if r1 > 1e-8 * sc1:
-            out.append((None, 'static(): reduced system not satisfied, residual %.3e (scale %.3e)' % (r1, sc1)))
+        nullrow = np.abs(rec['a']).sum(axis=1) == 0
+        keep = ~nullrow
+        if np.abs(res[keep]).max(initial=0.) > 1e-8 * sc1:
+            out.append((None, 'static(): reduced system not satisfied, residual %.3e (scale %.3e)'
+                        % (np.abs(res[keep]).max(), sc1)))
+        if np.abs(res[nullrow]).max(initial=0.) > 1e-8 * sc1:
+            # K_uu has null rows that carry load: no vector satisfies the system; sparse.solve drops these rows
+            out.append((KNOWN['nr'], 'static(): K_uu has %d null rows (zero stiffness) that carry load up to %.3e: the reduced '
+                                     'system is inconsistent, compmech.sparse.solve silently returns 0 there (model %s, '
+                                     'alphadeg %r)' % (int(nullrow.sum()), np.abs(res[nullrow]).max(), cc.model,
+                                                       case['geom']['alphadeg'])))
+        else:
+            keep = np.ones(len(res), dtype=bool)
         with contextlib.redirect_stdout(QUIET):
             c = np.array(cc.calc_full_c(cu, inc=1.))
         parts = oracle_parts(case, o, 1.)
         mag = parts.pop('_mag')
         sc = max((np.abs(K[free, :]) @ np.abs(c)).max(), mag, 1e-300)
         lhs = K[free, :] @ c
+        kp = keep
         ok_keys = None
         for keys in [(), ('tq',), ('la',), ('nh',), ('tq', 'la'), ('tq', 'nh'), ('la', 'nh'), ('tq', 'la', 'nh')]:
             f = (parts['pt'] + (parts['ax0'] if 'nh' in keys else parts['ax'])
                  + (parts['tqp'] if 'tq' in keys else parts['tq']) + parts['P'])[free]
             l2 = lhs - (K[free, 2] * c[2] if 'la' in keys else 0.)
-            if np.abs(l2 - f).max() <= 1e-7 * sc:
+            if np.abs((l2 - f)[kp]).max(initial=0.) <= 1e-7 * sc:
                 ok_keys = keys
                 break
         if ok_keys is None:
             out.append((None, 'static(): rows of K c = f of the free amplitudes violated, residual %.3e (scale %.3e)'
-                        % (np.abs(lhs - (parts['pt'] + parts['ax'] + parts['tq'] + parts['P'])[free]).max(), sc)))
+                        % (np.abs((lhs - (parts['pt'] + parts['ax'] + parts['tq'] + parts['P'])[free])[kp]).max(), sc)))
         else:
             for kk in ok_keys:
                 out.append((KNOWN[kk], 'static(): the rows of K c = f that belong to the free amplitudes hold only after the '
@@ -747,7 +763,8 @@ def partition_run(pc):
     cc.excluded_dofs = list(pc['E'])
     ent = pc['entries']
     M = coo_matrix(([e[2] for e in ent], ([e[0] for e in ent], [e[1] for e in ent])), shape=(pc['size'], pc['size']))
-    return cc.exclude_dofs_matrix(M, True, True, True), M.toarray()
+    arg = M.toarray() if pc['size'] % 2 else M       # a dense array is converted by the code itself
+    return cc.exclude_dofs_matrix(arg, True, True, True), M.toarray()
 
 
 def partition_line(pc):
@@ -935,13 +952,79 @@ def check_case(ctx, case, replies=None, want_model=True):
     return props, bad, o
 
 
+class LineCov(object):
+    """executed-line coverage of the modelled functions of conecyl.py (coverage.py, already in /venv)"""
+    FUNCS = ['_rebuild', 'exclude_dofs_matrix', 'calc_full_c', 'calc_fext', 'static']
+
+    def __init__(self):
+        try:
+            import coverage
+            import compmech.conecyl.conecyl as mod
+            self.file = mod.__file__
+            self.cov = coverage.Coverage(include=[self.file], data_file=None)
+        except Exception as e:       # pragma: no cover
+            self.cov = None
+            self.err = repr(e)
+
+    def __enter__(self):
+        if self.cov:
+            self.cov.start()
+        return self
+
+    def __exit__(self, *a):
+        if self.cov:
+            self.cov.stop()
+
+    def report(self):
+        if not self.cov:
+            return dict(error=self.err)
+        import ast
+        import compmech.conecyl.conecyl as mod
+        _, statements, _, missing, _ = self.cov.analysis2(self.file)
+        tree = ast.parse(open(self.file).read())
+        out = {}
+        for node in ast.walk(tree):
+            if isinstance(node, ast.ClassDef) and node.name == 'ConeCyl':
+                for fn in node.body:
+                    if isinstance(fn, ast.FunctionDef) and fn.name in self.FUNCS:
+                        doc = ast.get_docstring(fn, clean=False)
+                        st = [l for l in statements if fn.lineno < l <= fn.end_lineno]
+                        ms = [l for l in missing if fn.lineno < l <= fn.end_lineno]
+                        out[fn.name] = dict(statements=len(st), executed=len(st) - len(ms), missing_lines=ms)
+        return out
+
+
+# lines of the modelled functions that no admissible input of this harness reaches, with the reason
+UNREACHED_OK = {
+    '_rebuild': 'boundary-condition presets (bc=...), the k0-size reset, inf>1e8, warnings, isotropic F and the '
+                'invalid-Nxxtop raise are not part of the C18 model (geometry / Nxxtop / excluded dofs only)',
+    'calc_fext': '`2 not in excluded_dofs` is dead code (pdLA=False raises in _rebuild)',
+    'static': 'NLgeom=True branch belongs to C09/C17; models without the static flags are not registered',
+}
+
+
 def correspondence(ctx):
     rng = ctx.rng
     t0 = time.time()
+    lc = LineCov()
+    with lc:
+        _correspondence(ctx, rng, t0)
+    rep = lc.report()
+    ctx.cov['modelled_line_coverage'] = rep
+    ctx.cov['unreached_lines_explained'] = UNREACHED_OK
+    for fn, r in rep.items():
+        if isinstance(r, dict) and r.get('missing_lines') and fn not in UNREACHED_OK:
+            ctx.violation('modelled function %s has lines the correspondence never executes: %r (an unchecked tie)'
+                          % (fn, r['missing_lines']), dict(kind='coverage', function=fn, missing=r['missing_lines']),
+                          found_input=False)
+
+
+def _correspondence(ctx, rng, t0):
     dist = dict(models={}, subsets={}, excluded={}, alpha0=0, forces=0, forces_inc=0, pressure=0, Fc=0, nxx_array=0,
-                pdC=0, pdT_theta=0, torque=0, LA=0, fext_errors=0, static_errors={}, malformed={}, max_vw_rel_err=0.)
+                pdC=0, pdT_theta=0, torque=0, LA=0, fext_errors=0, static_errors={}, static_nonfinite=0, malformed={},
+                max_vw_rel_err_after_known_deviations=0.)
     # 1. malformed / admissible geometry stream, model vs implementation + predicate
-    gcases = [gen_geometry(rng, malformed=(k % 3 == 0))[0] for k in range(ctx.scale(60, 600))]
+    gcases = [gen_geometry(rng, malformed=(k % 3 == 0))[0] for k in range(ctx.scale(150, 1500))]
     impls = [geom_impl(g) for g in gcases]
     replies = driver([geom_line(g, i[2], i[3]) for g, i in zip(gcases, impls)])
     for g, i, rep in zip(gcases, impls, replies):
@@ -960,7 +1043,7 @@ def correspondence(ctx):
             return
     ctx.log('geometry stream: %d cases' % len(gcases))
     # 2. random COO matrices through exclude_dofs_matrix, every subset
-    pcs = partition_cases(rng, ctx.scale(48, 480))
+    pcs = partition_cases(rng, ctx.scale(96, 960))
     replies = driver([partition_line(pc) for pc in pcs])
     for pc, rep in zip(pcs, replies):
         ctx.evaluations += 1
@@ -976,7 +1059,7 @@ def correspondence(ctx):
             return
     ctx.log('partition stream: %d cases' % len(pcs))
     # 3. full cases
-    n = ctx.scale(70, 700)
+    n = ctx.scale(200, 2000)
     cases = [gen_case(rng, ctx.thorough()) for _ in range(n)]
     obs, lines, index = [], [], []
     for c in cases:
@@ -1011,7 +1094,9 @@ def correspondence(ctx):
         if nontrivial(c):
             ctx.nontrivial.add(json.dumps(c, sort_keys=True, default=str))
         props = predicates(c, o)
-        dist['max_vw_rel_err'] = max(dist['max_vw_rel_err'], getattr(o, 'vw_err', 0.) if not props else 0.)
+        dist['max_vw_rel_err_after_known_deviations'] = max(dist['max_vw_rel_err_after_known_deviations'],
+                                                            getattr(o, 'vw_err', 0.) if not [p for p in props if p[0] is None] else 0.)
+        dist['static_nonfinite'] += hasattr(o, 'static_note')
         ctx.sample(dict(case=c, fext_head=[float(v) for v in (o.fext[:4] if o.fext is not None else [])]), limit=2)
         for ident, text in props:
             if ctx.violation('C18 fails on the implementation: ' + text, dict(kind='case', case=c), identity=ident):
@@ -1030,7 +1115,7 @@ def correspondence(ctx):
                 return
     # 5. glue-level C16 / C17 predicates (reported; violations of C18 only with C18_GLUE_STRICT=1)
     strict = os.environ.get('C18_GLUE_STRICT', '') == '1'
-    for name, fn, cnt in (('c16_glue', c16_glue_checks, ctx.scale(10, 100)), ('c17_glue', c17_glue_checks, ctx.scale(3, 30))):
+    for name, fn, cnt in (('c16_glue', c16_glue_checks, ctx.scale(24, 240)), ('c17_glue', c17_glue_checks, ctx.scale(6, 60))):
         res = dict(cases=0, failures=[], achieved=[])
         for _ in range(cnt):
             case, fail = fn(ctx, rng)
@@ -1064,6 +1149,7 @@ WITNESSES = [
     _w('clpt_donnell_bc3', 0., pdT=False, T=1000.),                       # C18-torque-as-point-force
     _w('fsdt_donnell_bcn', 10., betadeg=2., thetaTdeg=1.),                # C18-LA-term-missing
     _w('fsdt_donnell_bcn', 0., Nxxtop=[3., 1., 2., -1., .5, .25, .75]),   # C18-nxxtop-harmonics-dropped-bcn
+    _w('clpt_donnell_bc2', 20., m1=2, m2=2, n2=1, pdT=False, forces=[[255., 0.5, 0., 10., 0.]]),  # C18-static-null-rows-loaded
 ]
 
 
